@@ -84,6 +84,8 @@ type c08Config struct {
 	// own: the consumer treats every returned object as its own and appends to its tag,
 	// node and member lists straight away; no other returned object may notice
 	own bool
+	// hdrFirst: Header() is called before the first Scan (flags and filters were set before)
+	hdrFirst bool
 }
 
 // c08Own appends one entry to every list of o, as a consumer that owns o may, and returns
@@ -110,7 +112,7 @@ func c08Own(o osm.Object, i int) (undo func()) {
 }
 
 func (c c08Config) String() string {
-	return fmt.Sprintf("skip=%d%d%d preds=%s/%s/%s procs=%d own=%v", b2i(c.skipN), b2i(c.skipW), b2i(c.skipR), c.predN, c.predW, c.predR, c.procs, c.own)
+	return fmt.Sprintf("skip=%d%d%d preds=%s/%s/%s procs=%d own=%v headerFirst=%v", b2i(c.skipN), b2i(c.skipW), b2i(c.skipR), c.predN, c.predW, c.predR, c.procs, c.own, c.hdrFirst)
 }
 
 func c08Run(res *fw.Result, data []byte, want []pbfw.Expect, cfg c08Config, keyBase string) {
@@ -180,7 +182,7 @@ func c08Run(res *fw.Result, data []byte, want []pbfw.Expect, cfg c08Config, keyB
 	}
 	var snaps []string
 	var undo []func()
-	sr := pbfScan(mon.NewReader(data), cfg.procs, false, func(s *osmpbf.Scanner) {
+	sr := pbfScan(mon.NewReader(data), cfg.procs, cfg.hdrFirst, func(s *osmpbf.Scanner) {
 		s.SkipNodes, s.SkipWays, s.SkipRelations = cfg.skipN, cfg.skipW, cfg.skipR
 		if cfg.predN != "nil" {
 			s.FilterNode = func(n *osm.Node) bool { return check(n, cfg.predN) }
@@ -307,6 +309,7 @@ func c08Exec(c fw.Case) *fw.Result {
 			cfg.predR = c08Preds[r.Intn(len(c08Preds))]
 		}
 		cfg.own = k%2 == 1
+		cfg.hdrFirst = (k+int(c.Int("skipmask")))%3 == 0
 		c08Run(res, data, want, cfg, keyBase)
 		res.Eval(fmt.Sprintf("skip%d%d%d/%s-%s-%s/%s", b2i(cfg.skipN), b2i(cfg.skipW), b2i(cfg.skipR), cfg.predN, cfg.predW, cfg.predR, c08Pattern(want, cfg)))
 		res.Put("neighbour_patterns", c08Pattern(want, cfg))
@@ -343,7 +346,7 @@ func init() {
 	fw.Register(&fw.Prop{
 		ID:    "C08",
 		Level: "exploration",
-		Rule: "PRNG files from the C01 generator (optional fields vary between neighbours; a seventh of them without header block); per file 4 configurations: the 8 skip-flag combinations swept systematically, predicates {none installed, all, none, alternating, pos mod 3, four-rejected-one-accepted, only tagless, only tagged, only big} per element type, decoders {1,3,8}; every second configuration with a consumer that appends to the lists of each returned object at once (ownership: no other returned object may change). " +
+		Rule: "PRNG files from the C01 generator (optional fields vary between neighbours; a seventh of them without header block); per file 4 configurations: the 8 skip-flag combinations swept systematically, predicates {none installed, all, none, alternating, pos mod 3, four-rejected-one-accepted, only tagless, only tagged, only big} per element type, decoders {1,3,8}; in a third of the configurations Header() is called before the first Scan; every second configuration with a consumer that appends to the lists of each returned object at once (ownership: no other returned object may change). " +
 			"Signature = (skip mask, predicate per type, which memory-reuse neighbour patterns occur: rejected-with-tags→accepted-without, rejected-with-children→accepted-with-fewer, rejected-with-metadata→accepted-without); distinct_nontrivial counts distinct signatures.",
 		Assumptions: []string{
 			"predicates are pure functions of the element's file position and content and never retain their argument",
